@@ -260,6 +260,17 @@ def build_query(identifier, session, query=None):
         if vr == "PN" and val:
             val = str(val)
 
+        # Part 4, C.2.2.2.3 Universal Matching
+        #   A zero-length value decodes as None or "" depending on the VR
+        if val is None or val == "":
+            query = _search_universal(elem, session, query)
+            continue
+
+        # Part 4, C.2.2.2.2 List of UID Matching
+        if vr == "UI" and elem.VM > 1:
+            query = _search_uid_list(elem, session, query)
+            continue
+
         # Part 4, C.2.2.2.1 Single Value Matching
         if vr != "SQ" and val is not None:
             if vr in _text_vr and ("*" in val or "?" in val):
